@@ -454,6 +454,239 @@ def run_arith(rep, facts):
     rep.note("R3.11 callee contracts used (count): %s; write / NVIter / replace_with are assumptions with the stated reasons, parse_stream / parse_buffered are verified as postconditions" % used)
     rep.floor("R3.11", "arithmetic / slicing obligations", total, 60)
 
+# ---- R3.12: the stream parser's call returns (loop progress) ---------------------------------------------------------
+def run_progress(rep, facts):
+    """stream::Parser::parse: `free_start - raw_start` (the unparsed input) strictly decreases on every iteration of the
+    processing loop.  Modular like R3.11: the two callees are verified against the postconditions the loop argument uses."""
+    import regions as R
+    Lin = R.Lin
+    rep.rule("R3.12", "stream::Parser::parse cannot spin (E8): on every path around its processing loop the unparsed input `free_start - raw_start` "
+                      "strictly decreases while `free_start` stays put; used callee postconditions, each verified on the callee's own paths: parse_head "
+                      "returning Ok(Continue) has advanced raw_start by at least one byte, parse_head / parse_payload never move raw_start backwards and "
+                      "never move free_start")
+    base = _contracts()
+    raw0, free0 = Lin.sym("raw_start"), Lin.sym("free_start")
+
+    def shape(ret):
+        """'continue' | 'break' | 'err' | None (unknown) for a Result<ControlFlow, _> or ControlFlow value."""
+        if isinstance(ret, tuple) and ret[0] == 'enum':
+            return ret
+        return None
+
+    # -- the callees' postconditions --------------------------------------------------------------------------------------
+    okc = True
+    for fn, is_result in (("parse_head", True), ("parse_payload", False)):
+        name = SP + "::" + fn
+        b = facts.body(name)
+        it = R.Interp(facts, CURSORS, len_of="buffer", inline={SP + "::is_record_boundary"}, contracts={k: v for k, v in base.items() if k != name})
+        ends = it.run(b)
+        bad = []
+        ncont = 0
+        for e in ends:
+            h, ctx = e.heap, e.ctx
+            r_, f_ = h.get("raw_start"), h.get("free_start")
+            if not (isinstance(r_, Lin) and isinstance(f_, Lin)):
+                bad.append(("cursor values are not tracked to the return", e.trace))
+                continue
+            if not ctx.eq(f_, free0):
+                bad.append(("free_start is moved (%s)" % f_, e.trace))
+            if not ctx.le(raw0, r_):
+                bad.append(("raw_start may move backwards (%s)" % r_, e.trace))
+            if is_result:
+                ret = e.ret
+                cont = None
+                if isinstance(ret, tuple) and ret[0] == 'enum' and ret[1] == 1:
+                    cont = False                                   # Err(_)
+                elif isinstance(ret, tuple) and ret[0] == 'enum' and ret[1] == 0 and ret[2] and isinstance(ret[2][0], tuple) and ret[2][0][0] == 'enum':
+                    cont = (ret[2][0][1] == 0)                     # Ok(Continue) / Ok(Break)
+                if cont is None or cont:
+                    ncont += 1
+                    if not ctx.le(raw0 + 1, r_):
+                        bad.append(("a path returning Ok(Continue) (or an untracked result) has not consumed any input (raw_start %s)" % r_, e.trace))
+        key = "%s/progress-contract" % fn
+        if bad:
+            okc = False
+            rep.violation("R3.12", key, bad[0][0], b.loc(), path=bad[0][1][-10:])
+        elif not ends or (is_result and not ncont):
+            okc = False
+            rep.undecidable("R3.12", key, "no %s path interpreted" % ("Ok(Continue)" if ends else "return"), b.loc())
+        else:
+            rep.ok("R3.12", key, "%d path(s): free_start untouched, raw_start monotone%s" % (len(ends), "; Ok(Continue) only after raw_start advanced (%d path(s))" % ncont if is_result else ""), b.loc())
+
+    # -- the loop, using them ---------------------------------------------------------------------------------------------
+    def havoc(it, st, strict):
+        old = st["heap"]
+        r_old, f_old = old.get("raw_start"), old.get("free_start")
+        syms = ["%s@%d" % (f, next(it.fresh)) for f in it.cursors]
+        it.chain(st["ctx"], syms)
+        st["heap"] = {f: Lin.sym(x) for f, x in zip(it.cursors, syms)}
+        st["regions"] = {}
+        h = st["heap"]
+        cons = []
+        if isinstance(r_old, Lin) and isinstance(f_old, Lin):
+            st["ctx"].add(h["free_start"] - f_old)
+            st["ctx"].add(f_old - h["free_start"])
+            st["ctx"].add(h["raw_start"] - r_old)
+            cons = [h["raw_start"] - r_old - 1]
+        return cons
+
+    def c_head(it, st, args, dty):
+        cons = havoc(it, st, True)
+        unit = ('tuple', [])
+        return [(('enum', 0, (('enum', 0, (unit,)),)), cons, "parse_head consumed a header"),
+                (('enum', 0, (('enum', 1, (unit,)),)), [], "parse_head stops the loop"),
+                (('enum', 1, (it.opaque(),)), [], "parse_head fails")]
+
+    def c_payload(it, st, args, dty):
+        havoc(it, st, False)
+        return it.opaque()
+
+    cs = dict(base)
+    cs[SP + "::parse_head"] = c_head
+    cs[SP + "::parse_payload"] = c_payload
+    b = facts.body(SP + "::parse")
+    it = R.Interp(facts, CURSORS, len_of="buffer", inline={SP + "::is_record_boundary"}, contracts=cs)
+    it.variant = lambda heap: heap["free_start"] - heap["raw_start"]
+    it.variant_text = "free_start - raw_start"
+    ends = it.run(b)
+    prog = [o for o in it.obligations if o.kind == "progress"]
+    badp = [o for o in prog if not o.ok]
+    if badp:
+        rep.violation("R3.12", "stream::parse/progress", "not derivable on a path around the loop: %s" % badp[0].text, badp[0].loc, path=badp[0].path[-12:])
+    elif not prog or not it.stats["loop_heads"]:
+        rep.undecidable("R3.12", "stream::parse/progress", "no loop / no back edge interpreted in stream::Parser::parse", b.loc())
+    elif not okc:
+        rep.undecidable("R3.12", "stream::parse/progress", "the callee postconditions the argument rests on do not hold (see above)", b.loc())
+    else:
+        rep.ok("R3.12", "stream::parse/progress", "%d back-edge path(s): free_start - raw_start strictly smaller than at the loop head on each" % len(prog), b.loc())
+    rep.floor("R3.12", "back-edge paths", len(prog), 1)
+
+# ---- R3.13: the request parser's call returns (progress of State::drive) ---------------------------------------------------
+def run_request_progress(rep, facts):
+    """request::State::drive loops over the per-state drives.  Each iteration that stays in the loop either consumes input
+    ("strict" states) or hands over, without growing the input, to a state that does ("weak" states: skip / values wrappers
+    whose Continue goes to `next.into_state()`); 2 * len(data) + [state is weak] therefore strictly decreases."""
+    import regions as R
+    Lin = R.Lin
+    RQ = "parser::request::"
+    ST = RQ + "State"
+    rep.rule("R3.13", "request::State::drive cannot spin: the loop feeds each drive's Continue((rest, state)) back unchanged; Header / Params drives "
+                      "return Continue only with a strictly shorter `rest` (E8); Skip / GetValues drives return Continue with `rest` no longer than their "
+                      "input and the state `next.into_state()`, and every StateBuilder::into_state builds a consuming or final state")
+    b, g, rows = rows_of(facts, ST + "::drive")
+    pnames = {b.local_name(i): i for i in range(1, b.argc + 1)}
+    l_self, l_data = pnames.get("self", 1), pnames.get("data", 2)
+    dispatch_map = {}
+    bad = []
+    nloop = 0
+    for r in rows:
+        drives = [(nm, args, n) for (nm, args, n) in r.calls if nm.startswith(RQ) and nm.endswith("::drive")]
+        if not drives:
+            continue
+        nm, args, nd = drives[0]
+        a0, a1 = ir.peel(args[0]), ir.peel(args[1]) if len(args) > 1 else None
+        if not (a0[0] == 'field' and a0[1][0] == 'variant' and ir.peel(a0[1][1])[0] == 'param' and a1 is not None and a1[0] == 'param' and a1[1] == l_data):
+            bad.append("a drive is not called with the current state's payload and the current input (%s)" % ir.show(args[0])[:60])
+            continue
+        v = a0[1][2]
+        if dispatch_map.setdefault(v, nm) != nm:
+            bad.append("variant %s is dispatched to two drives" % v)
+        if r.end == 'loop':
+            nloop += 1
+            pr = paths.PathResolver(g, r.nodes)
+            i = len(r.nodes) - 1
+            want = ('call', nm)
+            for l, k in ((l_data, 0), (l_self, 1)):
+                e = ir.peel(pr.local(g.root, l, i, 0))
+                okf = (e[0] == 'field' and str(e[2]) == str(k) and ir.peel(e[1])[0] == 'field' and str(ir.peel(e[1])[2]) == '0'
+                       and ir.peel(ir.peel(e[1])[1])[0] == 'variant' and ir.peel(ir.peel(e[1])[1])[2] == 'Continue'
+                       and ir.peel(ir.peel(ir.peel(e[1])[1])[1])[:2] == want)
+                if not okf:
+                    bad.append("the loop does not continue with component %d of the drive's Continue value (%s)" % (k, ir.show(e)[:80]))
+    variants = {v["name"] for v in facts.adts[ST]["variants"]}
+    final = {v for v in variants if v not in dispatch_map}
+    if bad:
+        rep.violation("R3.13", "State::drive/feedback", "; ".join(sorted(set(bad))), b.loc())
+    elif not nloop:
+        rep.undecidable("R3.13", "State::drive/feedback", "no path around the loop found", b.loc())
+    else:
+        rep.ok("R3.13", "State::drive/feedback", "%d loop path(s): (data, self) <- the drive's Continue payload; dispatch %s; returning at once: %s"
+               % (nloop, {k: v.split("::")[-2] for k, v in sorted(dispatch_map.items())}, sorted(final)), b.loc())
+
+    # -- the drives ------------------------------------------------------------------------------------------------------------
+    cs = _contracts()
+    klass = {}
+    for nm in sorted(set(dispatch_map.values())):
+        db = facts.body(nm)
+        it = R.Interp(facts, [], len_of=None, contracts=cs)
+        ends = it.run(db)
+        data_arg = it.arg_env.get(2)
+        L0 = it.slice_len(data_arg, R.Ctx()) if data_arg is not None else None
+        strict = weak = True
+        ncont = 0
+        for e in ends:
+            ret = e.ret
+            if not (isinstance(ret, tuple) and ret[0] == 'enum' and ret[2] and isinstance(ret[2][0], tuple) and ret[2][0][0] == 'tuple'):
+                strict = weak = False
+                continue
+            if ret[1] != 0:
+                continue            # Break: leaves the loop
+            ncont += 1
+            L = it.slice_len(ret[2][0][1][0], e.ctx)
+            if L is None or L0 is None:
+                strict = weak = False
+                continue
+            if not e.ctx.le(L + 1, L0):
+                strict = False
+            if not e.ctx.le(L, L0):
+                weak = False
+        klass[nm] = 'strict' if (strict and ncont) else 'weak' if (weak and ncont) else None
+    # weak drives must hand over to `next.into_state()`
+    into_state = RQ + "StateBuilder::into_state"
+    for nm, k in sorted(klass.items()):
+        db = facts.body(nm)
+        short = nm.split("::")[-2]
+        if k == 'strict':
+            rep.ok("R3.13", "%s::drive/consumes" % short, "every Continue returns a strictly shorter input", db.loc())
+            continue
+        if k is None:
+            rep.violation("R3.13", "%s::drive/consumes" % short, "a Continue result may carry an input longer than the drive was given (or is not tracked)", db.loc())
+            continue
+        b2, g2, rows2 = rows_of(facts, nm)
+        okn = True
+        nn = 0
+        for r in rows2:
+            if r.end != 'return' or r.ret is None or variant_of(r.ret) != 'Continue':
+                continue
+            nn += 1
+            pay = ir.peel(agg_field(r.ret, 0))
+            stv = ir.peel(agg_field(pay, 1)) if pay[0] == 'agg' else None
+            if not (stv is not None and stv[0] == 'call' and stv[1].endswith("::into_state") and stv[2]
+                    and ir.peel(stv[2][0])[0] == 'field' and ir.peel(stv[2][0])[2] == 'next'):
+                okn = False
+        if okn and nn:
+            rep.ok("R3.13", "%s::drive/hands-over" % short, "Continue never grows the input and continues with next.into_state() (%d path(s))" % nn, db.loc())
+        else:
+            rep.violation("R3.13", "%s::drive/hands-over" % short, "a Continue that may consume nothing does not continue with next.into_state()", db.loc())
+    # every into_state builds a consuming or final state
+    strict_variants = {v for v, nm in dispatch_map.items() if klass.get(nm) == 'strict'}
+    impls = [bb for bb in facts.bodies if bb.npath.endswith("StateBuilder>::into_state") or (bb.npath.endswith("::into_state") and " as " in bb.npath and "StateBuilder" in bb.npath)]
+    n_impl = 0
+    for ib in impls:
+        n_impl += 1
+        b3, g3, rows3 = rows_of(facts, ib.npath) if len(facts.by_npath.get(ib.npath, [])) == 1 else (ib, None, [])
+        got = set()
+        for r in rows3:
+            if r.end == 'return' and r.ret is not None:
+                got.add(variant_of(r.ret))
+        if got and got <= (strict_variants | final):
+            rep.ok("R3.13", "into_state[%s]" % ib.npath.split(" as ")[0].strip("<").split("::")[-1], "builds %s" % sorted(got), ib.loc())
+        else:
+            rep.violation("R3.13", "into_state[%s]" % ib.npath.split(" as ")[0].strip("<").split("::")[-1],
+                          "builds %s, which is not a state whose drive consumes input (%s) or returns at once (%s)" % (sorted(map(str, got)), sorted(strict_variants), sorted(final)), ib.loc())
+    rep.floor("R3.13", "StateBuilder::into_state implementations", n_impl, 3)
+    rep.floor("R3.13", "drives classified", len([k for k in klass.values() if k]), 4)
+
 
 def main(rep, tier):
     f = F.load(("async", "http"))
@@ -461,6 +694,8 @@ def main(rep, tier):
     check.guard(rep, "R3", run, f)
     check.guard(rep, "R3.10", run_geometry, f)
     check.guard(rep, "R3.11", run_arith, f)
+    check.guard(rep, "R3.12", run_progress, f)
+    check.guard(rep, "R3.13", run_request_progress, f)
     rep.floor("R3", "rule instances", len([i for i in rep.instances if i["status"] == "ok"]), 25)
     return rep.finish(
         "Structural clauses of the statement: sticky final states, clear-then-drive on every call, panic containment, side-effect-free "
